@@ -16,7 +16,7 @@ CLAIMS = {
             "C01_reads_are_the_decoded_tree / C01_spec_is_the_decoded_tree: when the input decodes (independent tree decoder Model/Doc.decodeAll, string keys) to a document d, every entry point on every valid handle returns what the sub-document at that position says (type, nearest double, string length and bytes, container length, element/key/value by index, first-match property or null) — the header-walk specification and the decoded tree agree (DocLink1-7). Integers below 2^53 are reported exactly. C01_header_reader_is_the_source_text: the model's header reader equals the marker dispatch of LazyValueRef::new regenerated arm by arm on every run. Tie: every read call (root, property by name / interned id, element / key by index, length, string bytes, api-level accessors) is compared with the real provider + api crates on generated raw MessagePack (every marker, non-minimal widths, duplicate keys, sizes crossing 15/16, 31/32, 255/256, 65535/65536, 2^14-1) over histories on all handles issued so far.",
             TB + "Handles are modelled as (root allocation, path); bump-arena address stability (the Vec pre-sized to the declared length) is not modelled — it is what makes a path a stable address. Histories include calls whose scope is not a handle (null, boolean, number, error value, forged bit patterns: answered by kind).",
             "Lean 4 invariant + refinement to an eager specification, lifted to every history, over a hand-written model + differential correspondence over documents x histories", "§4 C01"),
-    "C02": ("Kernel-checked theorems: C02_every_history (for ANY finite sequence of write calls, accepted and rejected in any mixture: if the writer then reports the output complete, the accepted calls in call order are the serialisation of one value tree v, the output bytes are exactly its canonical MessagePack encoding — one well-formed value, nothing else — and an independent eager decoder reads them back to v; via C02_rejected_calls_leave_no_trace and a payload-carrying completeness lemma for the document grammar), C02_completed_output_is_the_tree (for EVERY value tree of any size/depth whose integers fit 64 bits and lengths fit 32-bit headers: the write calls describing it are all accepted from a fresh writer, end in the completed state with an empty container stack, finalisation returns the bytes, and an independent eager decoder reads those bytes back to exactly that tree with nothing left over), "
+    "C02": ("Kernel-checked theorems: C02_every_history (for ANY finite sequence of write calls, accepted and rejected in any mixture: if the writer then reports the output complete, the accepted calls in call order are the serialisation of one value tree v, the output bytes are exactly its canonical MessagePack encoding — one well-formed value, nothing else — and an independent eager decoder reads them back to v; via C02_rejected_calls_leave_no_trace and a payload-carrying completeness lemma for the document grammar), C02_every_thread_history (the same after any history of protocol operations on a thread: reads, logs, interning, new invocations in between, strings by value or by interned id), C02_completed_output_is_the_tree (for EVERY value tree of any size/depth whose integers fit 64 bits and lengths fit 32-bit headers: the write calls describing it are all accepted from a fresh writer, end in the completed state with an empty container stack, finalisation returns the bytes, and an independent eager decoder reads those bytes back to exactly that tree with nothing left over), "
             "C02_writes_append_exactly_the_encoding (from any value position, inside any open containers, the calls append the canonical encoding and nothing else), C02_decode_encode (decoder inverts the encoding in any byte context), a rejected call — including a rejected string write with its copy — adds no byte; finalisation hands out bytes only in the completed state. "
             "Tied to provider/src/write.rs + api glue by byte-for-byte differential correspondence of the output after every call (all ten operations, both levels, sizes crossing header widths and buffer growth) and of the decoded document (outdoc?).",
             TB + "A string written as a bare allocation whose copy never arrives is outside C02_every_history (strings written whole); the split form is covered by the correspondence.",
